@@ -10,19 +10,20 @@
 
 use super::*;
 
-/// Stub for `MapType::new` (reaches `syn::parse_str`, which crashes the Kani
-/// compiler). Only used by harnesses that call `TypeSpace::default()`.
+/// Stub for `MapType::new` (which reaches `syn::parse_str`; that crashes the Kani compiler,
+/// and building any `syn::Type` goes through proc_macro2's proc-macro detection -- atomics,
+/// foreign calls -- at ~20 s of solver time per harness). The stub is active under
+/// verification only; under native playback `#[kani::stub]` is a no-op and the real
+/// `MapType::new` runs. The value is left uninitialised: no verified function reads
+/// `settings.map_type`; a read would surface as a nondeterministic value in CBMC, and every
+/// refutation is replayed natively (with the real value) before it is reported.
+#[allow(invalid_value)]
 pub(crate) fn stub_map_type_new(_s: &str) -> crate::MapType {
-    crate::MapType(syn::Type::Verbatim(proc_macro2::TokenStream::new()))
+    unsafe { core::mem::MaybeUninit::<MapType>::uninit().assume_init() }
 }
 
-/// An empty `TypeSpace`, field by field equal to `TypeSpace::default()`
-/// except `settings.map_type`, which is left uninitialised: building any
-/// `syn::Type` goes through `proc_macro2`'s proc-macro detection (atomics,
-/// foreign calls) and costs ~20 s of solver time per harness. No verified
-/// function reads `map_type`; a read would surface as a nondeterministic
-/// value in CBMC, and every refutation is replayed natively before it is
-/// reported.
+/// An empty `TypeSpace`, field by field equal to `TypeSpace::default()`.
+/// Harnesses that call it carry `#[kani::stub(crate::MapType::new, crate::verif_common::stub_map_type_new)]`.
 pub(crate) fn empty_type_space() -> TypeSpace {
     TypeSpace {
         next_id: 1,
@@ -41,8 +42,7 @@ pub(crate) fn empty_type_space() -> TypeSpace {
             struct_builder: false,
             unknown_crates: UnknownPolicy::Generate,
             crates: Default::default(),
-            #[allow(invalid_value)]
-            map_type: unsafe { core::mem::MaybeUninit::<MapType>::uninit().assume_init() },
+            map_type: MapType::new("::std::collections::HashMap"),
             patch: Default::default(),
             replace: Default::default(),
             convert: Vec::new(),
